@@ -200,7 +200,7 @@ def run_tree(env, tidx, tree, sh):
     if tidx % 5 == 4:
         # a second, independent build in the same test: its resources must not be mixed up with the first one's
         scenario["builds"].append({"config": bconf(pre=tidx % 2 == 0), "body": [{"op": "run_shell_command", "command": "true"}]})
-    case0 = {"tree": tidx, "scenario": scenario}
+    case0 = {"tree": tidx, "scenario": scenario, "as_nobody": env.as_nobody}
     rc, err, log, left = env.run(scenario)
     sh.evaluations += 1
     expected_fail = cfg["expected"] == "failure"
@@ -258,8 +258,14 @@ def run_tree(env, tidx, tree, sh):
 def shard_run(arg):
     items, work = arg
     sh = vp.Shard()
-    env = testrun.Env(os.path.join(work, "w%d" % os.getpid()))
+    # every second shard runs the test process as an unprivileged user, with a read-only directory in the app fixture: temporary
+    # copies must be removable by the user who made them (as root nothing is ever undeletable)
+    nobody = bool(items) and items[0][0] % 2 == 1 and vp.nobody_works()
+    env = testrun.Env(os.path.join(work, "w%d" % os.getpid()), as_nobody=nobody)
     env.create(FIXTURE)
+    if nobody:
+        os.chmod(os.path.join(env.crate, "fixtures", "app", "sub"), 0o555)
+        sh.count("shards_as_uid_65534")
     try:
         for tidx, tree in items:
             run_tree(env, tidx, tree, sh)
@@ -302,8 +308,10 @@ def run(tier, seed, work):
 def replay(case, work):
     res = vp.Result("C16", "quick", 0, "fault_enumeration")
     sh = vp.Shard()
-    env = testrun.Env(os.path.join(work, "replay"))
+    env = testrun.Env(os.path.join(work, "replay"), as_nobody=bool(case.get("as_nobody")) and vp.nobody_works())
     env.create(FIXTURE)
+    if env.as_nobody:
+        os.chmod(os.path.join(env.crate, "fixtures", "app", "sub"), 0o555)
     rc, err, log, left = env.run(case["scenario"], case.get("plan"))
     sh.evaluations += 1
     print("commands: %s\nTMPDIR leftovers: %r\nexit: %r" % ([" ".join(e["argv"][:3]) + (" [failed]" if e["failed"] else "") for e in log], left, rc))
